@@ -157,3 +157,4 @@ CFG = dict(
     extra=extra,
     timeout=600,
 )
+CFG["rule"] += ' The quick race stage includes a gRPC bidi call whose handler returns while a goroutine it started keeps receiving (grpc-leftover) and proxied bidi calls whose backend fails while the client is sending.'
